@@ -35,6 +35,14 @@ pub mod verif_casep {
 }
 mod initiator;
 mod responder;
+/// Verification-harness access to the derived TLV decoders of the private Sigma message structures.
+#[cfg(feature = "verif")]
+pub mod verif_tlv {
+    #[cfg(feature = "case-resumption")]
+    pub use super::initiator::verif_dec_sigma2_resume;
+    pub use super::initiator::{verif_dec_sigma2, verif_dec_tbe2};
+    pub use super::responder::{verif_dec_sigma1, verif_dec_sigma3};
+}
 #[cfg(feature = "case-resumption")]
 pub mod resumption;
 
